@@ -153,10 +153,15 @@ def gen_type(rng, depth, lit_ok=True, hashable=False, allow=None, no_dc=False):
                               {'op': 'user', 'fn': 'even'} if inner_kind == 'int' else {'op': 'finite'}))]
         elif inner_kind == 'list':
             inner = Ty('list', [g()])
-            cs = [rng.choice(({'op': 'nonempty'}, {'op': 'empty'}, {'op': 'len_range', 'min': 1, 'max': 2}))]
+            cs = [rng.choice(({'op': 'nonempty'}, {'op': 'empty'}, {'op': 'len_range', 'min': 1, 'max': 2}, {'op': 'len_range', 'min': 2, 'max': 2},
+                              {'op': 'len_range', 'min': 1}, {'op': 'len_range', 'min': 0, 'max': 0}))]
         else:
             inner = Ty('str')
-            cs = [rng.choice(({'op': 'nonempty'}, {'op': 'len_range', 'max': 3}, {'op': 'user', 'fn': 'boom'}))]
+            cs = [rng.choice(({'op': 'nonempty'}, {'op': 'len_range', 'max': 3}, {'op': 'user', 'fn': 'boom'}, {'op': 'len_range', 'min': 3, 'max': 3}))]
+        if inner_kind in ('int', 'float') and rng.random() < 0.3:
+            cs = [rng.choice(({'op': 'val_range', 'min': 5, 'max': 5}, {'op': 'val_range', 'min': 0}, {'op': 'not', 'kid': {'op': 'positive'}},
+                              {'op': 'or', 'kids': [{'op': 'negative'}, {'op': 'val_range', 'min': 5, 'max': 10}]},
+                              {'op': 'and', 'kids': [{'op': 'nonneg'}, {'op': 'user', 'fn': 'small'}]}))]
         return Ty('cond', [inner], conds=[C.with_names(c) for c in cs])
     if k == 'tagged':
         return gen_tagged(rng, d)
